@@ -15,8 +15,21 @@ fn word(rng: &mut StdRng) -> String {
     s
 }
 
+/// A number token: the grammar puts no bound on a number's size; `wide` shapes draw from the boundaries of the machine
+/// integer types as well (IdRules.tla: mag).
+fn number(rng: &mut StdRng, wide: bool, small: &[u64]) -> String {
+    const WIDE: [&str; 12] = ["0", "255", "256", "32767", "65535", "65536", "99999", "100000", "2147483648", "4294967295", "4294967296",
+                              "18446744073709551616"];
+    if wide && rng.gen_bool(0.7) {
+        WIDE[rng.gen_range(0 .. WIDE.len())].to_string()
+    } else {
+        small[rng.gen_range(0 .. small.len())].to_string()
+    }
+}
+
 pub fn name_of(rng: &mut StdRng, shape: &Value) -> String {
     let mut parts: Vec<String> = Vec::new();
+    let wide = shape["mag"] == "wide";
     if shape["lead"] == true {
         parts.push([7u32, 12, 100, 3][rng.gen_range(0 .. 4)].to_string());
     }
@@ -29,7 +42,7 @@ pub fn name_of(rng: &mut StdRng, shape: &Value) -> String {
                 if rng.gen_bool(0.5) { dotted } else { dotted.trim_end_matches('.').to_string() }
             }
             "roman" => ["II", "III", "IV", "V", "IX", "XIV", "MMXX"][rng.gen_range(0 .. 7)].to_string(),
-            "num" => [4u32, 66, 2042, 9][rng.gen_range(0 .. 4)].to_string(),
+            "num" => number(rng, wide, &[4, 66, 2042, 9]),
             "hyphen" => format!("{}-{}", word(rng), word(rng)),
             "alnum" => ["3D", "4x4", "7th", "2Fort", "Quake3", "F1", "R6", "X3"][rng.gen_range(0 .. 8)].to_string(),
             _ => {
@@ -39,7 +52,7 @@ pub fn name_of(rng: &mut StdRng, shape: &Value) -> String {
         });
     }
     match shape["trail"].as_str().unwrap() {
-        "num" => parts.push(rng.gen_range(2 ..= 9u32).to_string()),
+        "num" => parts.push(number(rng, wide, &[2, 3, 4, 5, 6, 7, 8, 9])),
         "year" => parts.push(rng.gen_range(1990 ..= 2030u32).to_string()),
         _ => {}
     }
